@@ -80,9 +80,16 @@ class Ctx:
         assumptions = assumptions + _V.trans_axioms()
         cross = self.tier == "thorough"
         res = solve.prove(assumptions, goal, timeout_ms=timeout_ms, cross_check=cross)
+        if cross and res["verdict"] == solve.Verdict.PROVED and kind != "cover":
+            # vacuity guard (thorough tier): the assumptions of a proved obligation must be satisfiable
+            ok_, _m, st_ = solve.satisfiable(assumptions, timeout_ms=4000)
+            if st_ == "unsat":
+                res["vacuous"] = True
         rec = {"id": oid, "kind": kind, "verdict": res["verdict"], "backend": res["backend"],
                "seconds": round(res["seconds"], 4), "lineno": lineno, "note": note,
                "known": None, "replay": None, "model": None}
+        if res.get("vacuous"):
+            rec["fault"] = "vacuous: the assumptions of this obligation are contradictory"
         if res.get("disagreement"):
             rec["fault"] = "z3 and cvc5 disagree (%s vs cvc5 %s)" % (res["verdict"], res.get("cvc5"))
         if cross:
@@ -118,11 +125,32 @@ class Ctx:
                 rec["known"] = [k["what"] for k in matched]
             elif rec["verdict"] == solve.Verdict.REFUTED and replay is not None and m is not None:
                 try:
-                    rec["replay"] = replay(m)
+                    rec["replay"] = replay(m) if callable(replay) else replay
                 except Exception as e:  # noqa
                     rec["replay"] = {"error": "replay builder failed: %s" % e}
         elif res["verdict"] == solve.Verdict.UNKNOWN:
             rec["note"] += " " + str(res.get("reason", ""))
+            # the provers left it open: look for a counter-model of a bounded instance
+            try:
+                m2 = solve.refute_bounded(assumptions, goal)
+            except Exception as e:  # noqa
+                m2 = None
+                rec["note"] += " (bounded refuter failed: %s)" % e
+            if m2 is not None:
+                rec["verdict"] = solve.Verdict.REFUTED
+                rec["backend"] = "z3-%s (counter-model of a bounded instance, sizes <= 2)" % z3.get_version_string()
+                rec["model"] = _model_str(m2)
+                rec["note"] += " refuted on a bounded instance after the unbounded query stayed open"
+                kfs = [k for k in self.known if oid_match(oid, k["obligation"]) and k.get("status") == "known"
+                       and not k.get("block")]
+                if kfs:
+                    rec["verdict"] = "known-finding"
+                    rec["known"] = [k["what"] for k in kfs]
+                elif replay is not None:
+                    try:
+                        rec["replay"] = replay(m2) if callable(replay) else replay
+                    except Exception as e:  # noqa
+                        rec["replay"] = {"error": "replay builder failed: %s" % e}
         self.obs.append(rec)
         if os.environ.get("PVC_TRACE"):
             print("  [trace] %s %s %.2fs %s" % (oid, rec["verdict"], rec["seconds"], rec["backend"]),
